@@ -49,11 +49,31 @@ def auto_discharge(ctx, s):
         labs = _labels(ctx, b, t["args"][1])
         calls = {l[1] for l in labs if l[0] == "call"}
         other = {l for l in labs if l[0] not in ("call", "const")}
+        # the index *is* a node's byte range (or is built from start_byte / end_byte): the producing
+        # call(s) of the value itself; what the node was derived from is irrelevant
+        ie = s.get("index")
+        direct = []
+        if ie is not None:
+            parts = [ie] if ie[0] != "agg" else list(ie[2])
+            for pe in parts:
+                while pe[0] in ("proj", "cast") and len(pe) > 1:
+                    pe = pe[1] if pe[0] == "proj" else pe[2]
+                direct.append(pe)
+        if direct and all(pe[0] == "call" and re.search(r"^tree_sitter::Node::<'tree>::(byte_range|start_byte|end_byte)$", pe[1]) for pe in direct):
+            return ("dependency-contract", "tree-sitter reports node byte ranges inside the parsed UTF-8 text and on char boundaries")
         if calls and not other and all(re.search(r"^tree_sitter::Node::<'tree>::(byte_range|start_byte|end_byte)$", c) for c in calls) and not any(l[0] == "const" for l in labs):
             return ("dependency-contract", "tree-sitter reports node byte ranges inside the parsed UTF-8 text and on char boundaries")
         if calls and not other and all(re.search(r"<impl \[T\]>::partition_point$", c) for c in calls) and (s["index"][0] == "agg" and s["index"][1].endswith("RangeFrom")):
             rl = _labels(ctx, b, t["args"][0])
             return ("std-contract", "partition_point returns an index <= len")
+    if kind == "overflow-Sub" and s.get("a") and s.get("b"):
+        # len(x) - len(part of x): a trimmed / stripped slice is never longer than the string it was cut from
+        a, bb = s["a"], s["b"]
+        if a[0] == "call" and re.search(r"<impl str>::len$", a[1]) and bb[0] == "call" and re.search(r"<impl str>::len$", bb[1]) and a[2] and bb[2]:
+            part = bb[2][0]
+            if part[0] == "call" and re.search(r"<impl str>::(trim|trim_start|trim_end|trim_start_matches|trim_end_matches|trim_matches|trim_ascii|trim_ascii_start|trim_ascii_end)$", part[1]) and part[2] \
+                    and render(part[2][0], 300) == render(a[2][0], 300):
+                return ("std-contract", "a trimmed slice is never longer than the string it was cut from")
     if kind == "unwrap" and s.get("operand") and s["operand"][0] == "call" and s["operand"][1] == "serde_json::to_value":
         ct = b.blocks[s["operand"][3]]["term"] if len(s["operand"]) > 3 and isinstance(s["operand"][3], int) else None
         ty = ((ct or {}).get("targs") or [""])[0]
